@@ -384,6 +384,67 @@ def run_scenarios(fa, res, codec, tier):
             ok, why = False, f"{type(e).__name__}: {e}"
         if not ok:
             res.add(Violation("c04.read", "records-differ:block-of-64MiB+1", f"a 64 MiB + 1 record under {codec}: {why}", info))
+    # (12) zero-record blocks produced through the public Writer.dump(), followed by more records
+    for pattern in ("dump-first", "write-dump-dump-write", "dump-between-flushes"):
+        info = {"schema": BS, "records": "<7 small>", "codec": codec, "sync_interval": 16000, "axis": f"scenario:empty-block-{pattern}"}
+        note_case(info)
+        keys.add(("empty-block", pattern))
+        res.evals += 1
+        fo = io.BytesIO()
+        try:
+            w = Writer(fo, copy.deepcopy(BS), codec=codec, sync_marker=marker)
+            if pattern == "dump-first":
+                w.dump()
+                for r in small9:
+                    w.write(copy.deepcopy(r))
+            elif pattern == "write-dump-dump-write":
+                for r in small9[:3]:
+                    w.write(copy.deepcopy(r))
+                w.dump()
+                w.dump()
+                for r in small9[3:]:
+                    w.write(copy.deepcopy(r))
+            else:
+                for r in small9[:2]:
+                    w.write(copy.deepcopy(r))
+                w.flush()
+                w.dump()
+                for r in small9[2:]:
+                    w.write(copy.deepcopy(r))
+                w.flush()
+                w.dump()
+            w.flush()
+            got = list(fa.reader(io.BytesIO(fo.getvalue())))
+            gotb = [x for b in fa.block_reader(io.BytesIO(fo.getvalue())) for x in b]
+        except Exception as e:
+            got = gotb = f"{type(e).__name__}: {e}"
+        if got != small9 or gotb != small9:
+            res.add(Violation("c04.read", "records-differ:empty-block", f"{pattern} under {codec}: reader {short(got, 160)}, block_reader {short(gotb, 160)}", info))
+    # (13) blocks copied with write_block, untouched / partly iterated / fully iterated before the copy
+    fo = io.BytesIO()
+    fa.writer(fo, copy.deepcopy(BS), copy.deepcopy(small9), codec=codec, sync_marker=b"d" * 16, sync_interval=1)
+    donor = fo.getvalue()
+    for touched in ("untouched", "first-record-read", "fully-iterated"):
+        for target_codec in (codec, "null"):
+            info = {"schema": BS, "records": "<7 small>", "codec": codec, "sync_interval": 1, "axis": f"scenario:write_block-{touched}-into-{target_codec}"}
+            note_case(info)
+            keys.add(("write_block", touched, target_codec))
+            res.evals += 1
+            out = io.BytesIO()
+            try:
+                w = Writer(out, copy.deepcopy(BS), codec=target_codec, sync_marker=marker)
+                for blk in fa.block_reader(io.BytesIO(donor)):
+                    if touched == "first-record-read":
+                        next(iter(blk))
+                    elif touched == "fully-iterated":
+                        list(blk)
+                    w.write_block(blk)
+                w.flush()
+                got = list(fa.reader(io.BytesIO(out.getvalue())))
+            except Exception as e:
+                got = f"{type(e).__name__}: {e}"
+            if got != small9:
+                res.add(Violation("c04.read", "records-differ:write_block", f"blocks ({touched}) copied into a {target_codec} file read back as {short(got, 200)}", info))
     res.distinct = len(keys)
     res.sample({"scenarios": sorted(map(str, keys))[:4], "codec": codec})
     return res
